@@ -292,6 +292,24 @@ func c07Set(ctx *core.Ctx, i int, fs gen.FileSet, thorough bool) {
 			}
 		}
 	}
+	// the same sets under other layouts of the files (a rotating uniform style per set; every style for every 16th set):
+	// verdict, attribution and "never a panic" must not depend on blank lines, comments, tabs or CRLF inside the files
+	styles := uniformStyles()
+	for si, st := range styles {
+		if si == 0 || (si%len(styles) != i%len(styles) && i%16 != 0) {
+			continue
+		}
+		lf := renderFiles(fs.Files, st, nil)
+		order := identity(len(fs.Files))
+		sv := schemaVersions[i%4]
+		want := ref.MergeRef(toMFiles(fs.Files, order), sv)
+		cs := &mergeCase{Tag: fs.Tag, Files: fs.Files, Order: order, Schema: sv, Style: st}
+		ctx.Trans(1)
+		if !c07Check(ctx, cs, runMerge(lf, order, sv), want) {
+			return
+		}
+		ctx.Flag("c07:layout-style")
+	}
 	ctx.Nontrivial(fs.Tag)
 	if ctx.WantSample() && len(fs.Files) > 1 && i%7 == 3 {
 		texts := map[string]string{}
@@ -340,10 +358,10 @@ func replayMerge(c json.RawMessage) (*mergeCase, []renderedFile) {
 func init() {
 	core.Register(&core.Check{
 		ID: "C07",
-		Rule: "module file sets: 2 files x <= 2 declarations (quick; thorough 2 x <= 3 and 3 x <= 2; quick adds 3 x <= 1) from a menu of 12 declarations " +
+		Rule: "module file sets: 2 files x <= 2 declarations (quick; thorough 2 x <= 3 and 3 x <= 2; quick adds 3 x <= 1) from a menu of 13 declarations " +
 			"(types with/without relations, extensions with fresh / clashing / no relations, extension of an undefined type, conditions), plus sets completed by one of 7 malformed members " +
 			"(model-header files with/without relations/conditions, syntax errors, module without name, type extended twice) x every permutation of the file list x schema versions " +
-			"x map schedules of the merger's six map-iteration sites (budget 1 quick / 2 thorough). Oracle: reference merge over the declarations the generator wrote. " +
+			"x map schedules of the merger's six map-iteration sites (budget 1 quick / 2 thorough); each set also with its files rendered in another uniform layout style (blank lines, comments, tabs, CRLF, extra spaces; rotating, all styles for every 16th set). Oracle: reference merge over the declarations the generator wrote. " +
 			"states = distinct outcomes (models or error lists), non-trivial = distinct file sets",
 		Assume: []string{
 			"file names within one set are distinct",
@@ -352,7 +370,7 @@ func init() {
 		Technique: "bounded exhaustive enumeration of file sets x file-list permutations x map-iteration schedules against a reference merge",
 		Run:       c07Run,
 		Finish: func(r *core.Result) error {
-			for _, f := range []string{"map-sites-reached", "c07:success", "c07:failure", "c07:malformed", "c07:extension-relation",
+			for _, f := range []string{"map-sites-reached", "c07:success", "c07:failure", "c07:malformed", "c07:extension-relation", "c07:layout-style",
 				"c07:conflict:duplicate-type", "c07:conflict:duplicate-condition", "c07:conflict:missing-extension-target", "c07:conflict:relation-clash"} {
 				if !r.Flags[f] {
 					return fmt.Errorf("C07: guard %q never exercised", f)
